@@ -85,3 +85,50 @@ def replay(rp):
     (_, v, plain, full), = EL.xchk_impl(EoN, sim, [case])
     print('verdict of the extracted checkers on the implementation outputs:', v)
     return 1 if (v.get('traj') is False or v.get('tx') is False or v.get('cons') is False or (v.get('okb2') and 'impl_failed' in v)) else 0
+
+
+WHICH = {'C04': ('traj', 'wf_trajb', 'C04esir'), 'C09': ('tx', 'tx_validb', 'C09esir'), 'C10': ('cons', 'consistent_b', 'C10esir')}
+
+
+def part(run, tier, pid, props, per):
+    """the esir part of property pid (C04 / C09 / C10), called from harness/c04.py, c09.py, c10.py: re-checks
+    Props/<pid>esir.v (its theorems join the obligations of pid) and applies the extracted checker of that property
+    to the implementation's own outputs; a rejection is a failing input of the property."""
+    EoN = C.import_eon()
+    import EoN.simulation as sim
+    field, chk, pname = WHICH[pid]
+    xp = C.check_props(pname)
+    props['theorems'] = list(props['theorems']) + list(xp['theorems'])
+    props['axioms'] = dict(props['axioms'], **xp['axioms'])
+    if not xp['ok']:
+        props['ok'] = False
+        props['log'] = (props.get('log') or '') + ' | ' + xp['log'][-400:]
+        run.violation('%s/proof/%s' % (pid, pname), 'Props/%s.v no longer checks: %s' % (pname, xp['log'][-400:]),
+                      {'broken': 'coq/Props/%s.v' % pname, 'log': xp['log']}, no_input=True)
+    ok, log = C.build_driver(EL.XCOMP)
+    if not ok:
+        run.violation('%s/build/esirx' % pid, 'extracted checkers do not build: ' + log[-500:], {'log': log[-3000:]}, no_input=True)
+        return
+    rng = run.rng
+    n = 300 if tier == 'quick' else 4000
+    cases = []
+    for i in range(n):
+        c = EL.gen_case(rng, 'NM', nmax=7, zero_init_dur=(i % 3 == 0))
+        if EL.xchk_domain(c): cases.append(c)
+    judged = rejected = 0
+    for case, v, plain, full in EL.xchk_impl(EoN, sim, cases):
+        if 'skip' in v or not v.get('okb2', False) and 'fail' not in v: continue
+        if 'fail' in v:
+            run.violation('%s/esirx/driver' % pid, 'checker driver failed: %r' % (v['fail'],), {'case': EL.case_json(case)}, no_input=True); continue
+        if 'impl_failed' in v:
+            if pid == 'C04':
+                run.violation('C04/fast_nonMarkov_SIR/returns', 'inside esir_okb2 the model returns in both modes (C04_esir_rows_well_formed), the implementation did not: %r' % (v['impl_failed'],),
+                              dict(EL.case_json(case), entry='fast_nonMarkov_SIR', checker='returns'))
+            continue
+        judged += 1
+        if v.get(field) is False:
+            rejected += 1
+            shown = {'traj': plain['rows'][:8], 'tx': full['trans'][:8], 'cons': (dict(list(full['hist'].items())[:4]), plain['rows'][:8])}[field]
+            run.violation('%s/fast_nonMarkov_SIR/%s' % (pid, chk), 'the extracted checker %s (proved sound and accepted on every model run, Props/%s.v) rejects the implementation\'s output %r' % (chk, pname, shown),
+                          dict(EL.case_json(case), entry='fast_nonMarkov_SIR', checker=chk))
+    per['fast_nonMarkov_SIR/extracted-checker'] = {'proved': True, 'props': 'Props/%s.v' % pname, 'checker': chk, 'judged': judged, 'rejected': rejected}
